@@ -97,6 +97,9 @@ type liqWorld struct {
 	refP   map[string]sdk.Dec         // reference price per app:pair
 	orders []liqtypes.Order           // orders ever placed (for cancels)
 	users  map[int]bool
+	life    *lifeScn // the order-life scenario of this case (nil: none)
+	huntHit *[4]uint64 // app, pair, order id, owner of the order the directed search placed (mode C05F)
+	poolPct int      // share of pool operations
 }
 
 func (w *liqWorld) unix() int64 { return w.now.Unix() }
@@ -419,49 +422,67 @@ func (w *liqWorld) poolDenoms(app, pid uint64) (qd, bd string, pl liqtypes.Pool,
 	return
 }
 
-func (w *liqWorld) opDeposit(app uint64, owner int, pid uint64, x, y sdk.Int) {
+// coins of a message as trace tokens: "<n> <denom> <amount> ..." (sdk.NewCoins: sorted, zero coins dropped)
+func liqCoinsTok(cs sdk.Coins) string {
+	var sb strings.Builder
+	fmt.Fprintf(&sb, "%d", len(cs))
+	for _, c := range cs {
+		fmt.Fprintf(&sb, " %d %s", liqDenomCode(c.Denom), c.Amount)
+	}
+	return sb.String()
+}
+
+// the deposit coins of a message naming pool (app, pid): the pool's own pair denoms
+func (w *liqWorld) ownCoins(app, pid uint64, x, y sdk.Int) sdk.Coins {
 	qd, bd, _, _, _ := w.poolDenoms(app, pid)
-	res := w.exec(liqtypes.NewMsgDeposit(app, addrN(owner), pid, sdk.NewCoins(sdk.NewCoin(qd, x), sdk.NewCoin(bd, y))))
-	w.tr.p("op deposit %d %d %d %s %s %s", app, owner, pid, x, y, res)
+	return sdk.NewCoins(sdk.NewCoin(qd, x), sdk.NewCoin(bd, y))
+}
+
+func (w *liqWorld) opDeposit(app uint64, owner int, pid uint64, coins sdk.Coins) {
+	res := w.exec(liqtypes.NewMsgDeposit(app, addrN(owner), pid, coins))
+	w.tr.p("op deposit %d %d %d %s %s", app, owner, pid, liqCoinsTok(coins), res)
 	w.obs()
 }
 
-func (w *liqWorld) opWithdraw(app uint64, owner int, pid uint64, pc sdk.Int) {
-	res := w.exec(liqtypes.NewMsgWithdraw(app, addrN(owner), pid, sdk.Coin{Denom: liqtypes.PoolCoinDenom(app, pid), Amount: pc}))
-	w.tr.p("op withdraw %d %d %d %s %s", app, owner, pid, pc, res)
+// the pool coin [pc] may be the coin of ANOTHER pool (cross-app attempts)
+func (w *liqWorld) opWithdraw(app uint64, owner int, pid uint64, pc sdk.Coin) {
+	res := w.exec(liqtypes.NewMsgWithdraw(app, addrN(owner), pid, pc))
+	w.tr.p("op withdraw %d %d %d %d %s %s", app, owner, pid, liqDenomCode(pc.Denom), pc.Amount, res)
 	w.obs()
 }
 
-func (w *liqWorld) opFarm(app uint64, owner int, pid uint64, amt sdk.Int) {
-	res := w.exec(liqtypes.NewMsgFarm(app, pid, addrN(owner), sdk.Coin{Denom: liqtypes.PoolCoinDenom(app, pid), Amount: amt}))
-	w.tr.p("op farm %d %d %d %s %d %s", app, owner, pid, amt, w.unix(), res)
+func (w *liqWorld) opFarm(app uint64, owner int, pid uint64, pc sdk.Coin) {
+	res := w.exec(liqtypes.NewMsgFarm(app, pid, addrN(owner), pc))
+	w.tr.p("op farm %d %d %d %d %s %d %s", app, owner, pid, liqDenomCode(pc.Denom), pc.Amount, w.unix(), res)
 	w.obs()
 }
 
-func (w *liqWorld) opUnfarm(app uint64, owner int, pid uint64, amt sdk.Int) {
-	res := w.exec(liqtypes.NewMsgUnfarm(app, pid, addrN(owner), sdk.Coin{Denom: liqtypes.PoolCoinDenom(app, pid), Amount: amt}))
-	w.tr.p("op unfarm %d %d %d %s %s", app, owner, pid, amt, res)
+func (w *liqWorld) opUnfarm(app uint64, owner int, pid uint64, pc sdk.Coin) {
+	res := w.exec(liqtypes.NewMsgUnfarm(app, pid, addrN(owner), pc))
+	w.tr.p("op unfarm %d %d %d %d %s %s", app, owner, pid, liqDenomCode(pc.Denom), pc.Amount, res)
 	w.obs()
 }
 
-func (w *liqWorld) opDepositAndFarm(app uint64, owner int, pid uint64, x, y sdk.Int) {
-	qd, bd, pl, pr, found := w.poolDenoms(app, pid)
+func (w *liqWorld) opDepositAndFarm(app uint64, owner int, pid uint64, coins sdk.Coins) {
+	_, _, pl, pr, found := w.poolDenoms(app, pid)
 	ax, ay, pc := sdk.ZeroInt(), sdk.ZeroInt(), sdk.ZeroInt()
 	if found && !pl.Disabled {
 		rx, ry := w.k.GetPoolBalances(w.ctx, pl)
 		ps := w.k.GetPoolCoinSupply(w.ctx, pl)
 		if !pl.AMMPool(rx.Amount, ry.Amount, ps).IsDepleted() {
-			safely(func() { ax, ay, pc = amm.Deposit(rx.Amount, ry.Amount, ps, x, y) })
+			safely(func() {
+				ax, ay, pc = amm.Deposit(rx.Amount, ry.Amount, ps, coins.AmountOf(pr.QuoteCoinDenom), coins.AmountOf(pr.BaseCoinDenom))
+			})
 		}
-		_ = pr
 	}
-	res := w.exec(liqtypes.NewMsgDepositAndFarm(app, addrN(owner), pid, sdk.NewCoins(sdk.NewCoin(qd, x), sdk.NewCoin(bd, y))))
-	w.tr.p("op depfarm %d %d %d %s %s %d %s %s %s %s", app, owner, pid, x, y, w.unix(), ax, ay, pc, res)
+	res := w.exec(liqtypes.NewMsgDepositAndFarm(app, addrN(owner), pid, coins))
+	w.tr.p("op depfarm %d %d %d %s %d %s %s %s %s", app, owner, pid, liqCoinsTok(coins), w.unix(), ax, ay, pc, res)
 	w.obs()
 }
 
-func (w *liqWorld) opUnfarmAndWithdraw(app uint64, owner int, pid uint64, pc sdk.Int) {
+func (w *liqWorld) opUnfarmAndWithdraw(app uint64, owner int, pid uint64, coin sdk.Coin) {
 	_, _, pl, _, found := w.poolDenoms(app, pid)
+	pc := coin.Amount
 	x, y := sdk.ZeroInt(), sdk.ZeroInt()
 	if found && !pl.Disabled && pc.IsPositive() {
 		rx, ry := w.k.GetPoolBalances(w.ctx, pl)
@@ -471,9 +492,14 @@ func (w *liqWorld) opUnfarmAndWithdraw(app uint64, owner int, pid uint64, pc sdk
 			safely(func() { x, y = amm.Withdraw(rx.Amount, ry.Amount, ps, pc, params.WithdrawFeeRate) })
 		}
 	}
-	res := w.exec(liqtypes.NewMsgUnfarmAndWithdraw(app, pid, addrN(owner), sdk.Coin{Denom: liqtypes.PoolCoinDenom(app, pid), Amount: pc}))
-	w.tr.p("op unfarmwd %d %d %d %s %s %s %s", app, owner, pid, pc, x, y, res)
+	res := w.exec(liqtypes.NewMsgUnfarmAndWithdraw(app, pid, addrN(owner), coin))
+	w.tr.p("op unfarmwd %d %d %d %d %s %s %s %s", app, owner, pid, liqDenomCode(coin.Denom), pc, x, y, res)
 	w.obs()
+}
+
+// the pool coin of pool (app, pid)
+func liqPC(app, pid uint64, amt sdk.Int) sdk.Coin {
+	return sdk.Coin{Denom: liqtypes.PoolCoinDenom(app, pid), Amount: amt}
 }
 
 func (w *liqWorld) opBegin() {
@@ -524,9 +550,31 @@ func (w *liqWorld) opEnd() {
 			}
 		}
 	}
+	batchBefore := map[string]uint64{}
+	for _, app := range w.apps {
+		for _, p := range w.k.GetAllPairs(w.ctx, app) {
+			batchBefore[fmt.Sprintf("%d:%d", app, p.Id)] = p.CurrentBatchId
+		}
+		// what the EndBlocker is about to compute for this app, through the real NewUserOrder / keeper.Match
+		w.shadowMatch(app)
+	}
 	panicked, _ := safely(func() { liquidity.EndBlocker(w.ctx, w.k, w.a.AssetKeeper) })
 	if panicked {
 		w.tr.p("op endpanic")
+	}
+	// was the app's batch executed?  (ApplyFuncIfNoError swallows errors and panics: nothing of the app changes)
+	for _, app := range w.apps {
+		flag := 2 // no pair: not observable
+		for _, p := range w.k.GetAllPairs(w.ctx, app) {
+			if p.CurrentBatchId == batchBefore[fmt.Sprintf("%d:%d", app, p.Id)]+1 {
+				if flag == 2 {
+					flag = 1
+				}
+			} else {
+				flag = 0
+			}
+		}
+		w.tr.p("ex %d %d", app, flag)
 	}
 	var sb strings.Builder
 	fmt.Fprintf(&sb, "op end %d %d %d", w.height, w.unix(), len(w.apps))
@@ -620,7 +668,7 @@ func (w *liqWorld) opEnd() {
 // generator
 
 var liqAmounts = []int64{100, 101, 150, 999, 1000, 12345, 100000, 1000000, 3333333, 50000000}
-var liqLifes = []int64{0, 0, 5, 10, 15, 25, 40, 100000}
+var liqLifes = []int64{0, 0, 5, 10, 15, 25, 40, 100000, 600, 3600}
 
 func liqDrive(t *testing.T, mode string) {
 	a, base := newApp(t)
@@ -629,7 +677,9 @@ func liqDrive(t *testing.T, mode string) {
 	r := newRng(seed())
 	ncases := envInt("VERIF_CASES", 20)
 	only := envInt("VERIF_CASE", -1)
-	c04 := mode == "C04"
+	c04 := mode == "C04" || mode == "C06" // pool-heavy workloads
+	c06 := mode == "C06"
+	hunt := mode == "C05F"
 
 	for ci := 0; ci < ncases; ci++ {
 		caseSeed := r.next()
@@ -656,7 +706,15 @@ func liqDrive(t *testing.T, mode string) {
 			params.MaxOrderLifespan = 24 * time.Hour
 			params.MaxNumMarketMakingOrderTicks = uint64(g.pickI(2, 3, 10, 10))
 			params.MaxNumActivePoolsPerPair = uint64(g.pickI(2, 3, 20))
+			if hunt {
+				params.MaxNumActivePoolsPerPair = 20
+			}
 			w.k.SetGenericParams(w.ctx, params)
+			if c06 {
+				params.WithdrawFeeRate = []sdk.Dec{sdk.ZeroDec(), sdk.NewDecWithPrec(3, 3), sdk.NewDecWithPrec(5, 1)}[g.intn(3)]
+			}
+			w.k.SetGenericParams(w.ctx, params)
+			tr.p("wfee %d %s", id, params.WithdrawFeeRate.BigInt())
 			tr.p("op app %d %s %d %s %d %d 9 %s %s %s %s %d %d 86400", id, params.SwapFeeRate.BigInt(), params.TickPrecision, params.MaxPriceLimitRatio.BigInt(),
 				int64(params.MaxOrderLifespan/time.Second), params.MaxNumMarketMakingOrderTicks, params.PairCreationFee[0].Amount, params.PoolCreationFee[0].Amount,
 				params.MinInitialPoolCoinSupply, params.MinInitialDepositAmount, params.MaxNumActivePoolsPerPair, params.BatchSize)
@@ -675,11 +733,14 @@ func liqDrive(t *testing.T, mode string) {
 		}
 		w.obs()
 		// --- pairs: (base, quote) with distinct quote denoms inside an app
+		// the same pair id names DIFFERENT coins in different apps (rotation per app), so that a message naming
+		// (app, pair / pool id) with the coins of the other app's pair / pool of the same id is distinguishable
 		pairDefs := [][2]int64{{1, 2}, {2, 3}, {3, 1}}
 		for _, app := range w.apps {
 			np := 1 + g.intn(3)
+			rot := g.intn(3)
 			for j := 0; j < np; j++ {
-				w.opCreatePair(app, 90, pairDefs[j][0], pairDefs[j][1])
+				w.opCreatePair(app, 90, pairDefs[(j+rot)%3][0], pairDefs[(j+rot)%3][1])
 			}
 		}
 		if g.chance(30) { // duplicate / not whitelisted
@@ -689,13 +750,36 @@ func liqDrive(t *testing.T, mode string) {
 		for _, app := range w.apps {
 			for _, p := range w.pairs[app] {
 				w.refP[fmt.Sprintf("%d:%d", app, p.Id)] = liqDec([]int64{1000000000000000000, 500000000000000000, 2345000000000000000, 12000000000000000}[g.intn(4)])
+				if hunt {
+					// low prices: a pool order of a few thousand base coins is worth a few quote units, so that a pro-rata
+					// share of it can be worth nothing (the class of C05-F1)
+					w.refP[fmt.Sprintf("%d:%d", app, p.Id)] = liqDec([]int64{1000000000000000, 1200000000000000, 500000000000000, 2000000000000000, 10000000000000000}[g.intn(5)])
+				}
 			}
 		}
 		// --- pools on some pairs
 		for _, app := range w.apps {
 			for _, p := range w.pairs[app] {
 				ref := w.refP[fmt.Sprintf("%d:%d", app, p.Id)]
-				if g.chance(map[bool]int{true: 85, false: 40}[c04]) {
+				poolPct := map[bool]int{true: 85, false: 40}[c04]
+				if mode == "C05" {
+					poolPct = 15 // a pool puts hundreds of orders on the book; the keeper-level C05 replay is about user orders
+				}
+				if hunt {
+					// a basic pool and two ranged pools at the minimum size; the creator then withdraws most of the shares,
+					// so that the pools' orders on a tick are of the size 1/price .. 3/price
+					y := sdk.NewInt(1000000).ToLegacyDec().Quo(ref).Ceil().TruncateInt().MulRaw(int64(1 + g.intn(3)))
+					w.opCreatePool(app, 90, p.Id, ref.MulInt(y).TruncateInt(), y)
+					for k := 0; k < 2; k++ {
+						yr := sdk.NewInt(int64(1000000 + g.intn(4000000)))
+						prec := 4
+						lo := amm.PriceToDownTick(ref.Mul(sdk.NewDecWithPrec(8, 1)), prec)
+						hi := amm.PriceToDownTick(ref.Mul(sdk.NewDecWithPrec(13, 1)), prec)
+						w.opCreateRanged(app, 90, p.Id, ref.MulInt(yr).TruncateInt().AddRaw(1), yr, lo, hi, amm.PriceToDownTick(ref, prec))
+					}
+					continue
+				}
+				if g.chance(poolPct) {
 					y := sdk.NewInt(int64(1000000 + g.intn(50000000)))
 					x := ref.MulInt(y).TruncateInt()
 					w.opCreatePool(app, 90, p.Id, x, y)
@@ -719,15 +803,88 @@ func liqDrive(t *testing.T, mode string) {
 			app := w.apps[g.intn(3)]
 			if pools := w.k.GetAllPools(w.ctx, app); len(pools) > 0 {
 				pl := pools[g.intn(len(pools))]
-				w.opWithdraw(app, 90, pl.Id, bal(w.a, w.ctx, addrN(90), pl.PoolCoinDenom))
+				w.opWithdraw(app, 90, pl.Id, liqPC(app, pl.Id, bal(w.a, w.ctx, addrN(90), pl.PoolCoinDenom)))
 				w.opEnd()
 				w.now = w.now.Add(10 * time.Second)
 				w.opBegin()
 			}
 		}
+		if hunt {
+			for _, app := range w.apps {
+				for _, pl := range w.k.GetAllPools(w.ctx, app) {
+					pr, _ := w.k.GetPair(w.ctx, app, pl.PairId)
+					_, ry := w.k.GetPoolBalances(w.ctx, pl)
+					unit := sdk.OneDec().Quo(w.refP[fmt.Sprintf("%d:%d", app, pr.Id)]).TruncateInt()
+					target := unit.MulRaw(int64(1500 + g.intn(4000)))
+					if pl.Type == liqtypes.PoolTypeRanged {
+						target = unit.MulRaw(int64(150 + g.intn(600)))
+					}
+					ps := w.k.GetPoolCoinSupply(w.ctx, pl)
+					if target.LT(ry.Amount) {
+						keep := ps.Mul(target).Quo(ry.Amount)
+						w.opWithdraw(app, 90, pl.Id, liqPC(app, pl.Id, ps.Sub(keep)))
+					}
+				}
+			}
+			w.opEnd()
+			w.now = w.now.Add(10 * time.Second)
+			w.opBegin()
+		}
+		if c06 {
+			// warm-up: liquidity providers deposit into every pool, so that they hold pool coins of several apps
+			for _, app := range w.apps {
+				for _, pl := range w.k.GetAllPools(w.ctx, app) {
+					ref := w.refP[fmt.Sprintf("%d:%d", app, pl.PairId)]
+					for _, lp := range []int{1 + g.intn(5), 1 + g.intn(5)} {
+						y := sdk.NewInt(int64(g.pickI(1000, 100000, 5000000)))
+						w.opDeposit(app, lp, pl.Id, w.ownCoins(app, pl.Id, ref.MulInt(y).TruncateInt().AddRaw(int64(g.intn(1000))), y))
+					}
+				}
+			}
+			w.opEnd()
+			w.now = w.now.Add(10 * time.Second)
+			w.opBegin()
+		}
+		// a long-lived order on a reserved pair: partially matched, the last price moved past it, matched again
+		// by several small counter orders on different ticks (driver in liq2_helpers_test.go)
+		lifePct := map[string]int{"C07": 45, "C04": 25, "C06": 0, "C05": 85}[mode]
+		if g.chance(lifePct) {
+			w.life = w.newLifeScn(g)
+		}
 		nb := 3 + g.intn(6)
+		if w.life != nil && nb < 5 {
+			nb = 5
+		}
+		w.poolPct = map[bool]int{true: 45, false: 0}[c04]
+		if c06 {
+			w.poolPct = 80
+		}
 		for b := 0; b < nb; b++ {
 			nops := 10 + g.intn(31)
+			if c06 {
+				nops = 8 + g.intn(16)
+			}
+			if w.life != nil {
+				w.lifeStep(g)
+			}
+			if hunt && b >= 1 {
+				// one hit per case; afterwards the blocks only pass (and the owner tries to cancel): a stalled app
+				// stays stalled with an unchanged book, past the expiry of the order
+				if w.huntHit == nil {
+					if app, pair, id, owner, ok := w.huntStep(g); ok {
+						w.huntHit = &[4]uint64{app, pair, id, uint64(owner)}
+					}
+					if w.huntHit != nil {
+						nops = 0
+					}
+				} else {
+					nops = 0
+					h := w.huntHit
+					if _, live := w.k.GetOrder(w.ctx, h[0], h[1], h[2]); live && g.chance(60) {
+						w.opCancel(h[0], int(h[3]), h[1], h[2])
+					}
+				}
+			}
 			for i := 0; i < nops; i++ {
 				w.genOp(g, c04)
 			}
@@ -789,6 +946,9 @@ func (w *liqWorld) pickPair(g *rng) (uint64, liqtypes.Pair, bool) {
 		return app, liqtypes.Pair{}, false
 	}
 	p, _ := w.k.GetPair(w.ctx, app, ps[g.intn(len(ps))].Id)
+	if w.life != nil && w.life.app == app && w.life.pair == p.Id {
+		return app, p, false // reserved for the order-life scenario
+	}
 	return app, p, true
 }
 
@@ -811,12 +971,14 @@ func (w *liqWorld) pickPrice(g *rng, app uint64, p liqtypes.Pair) sdk.Dec {
 
 func (w *liqWorld) genOp(g *rng, c04 bool) {
 	x := g.intn(100)
-	if c04 && x < 45 {
+	if c04 && x < w.poolPct {
 		w.genPoolOp(g)
 		return
 	}
 	x = g.intn(100)
 	switch {
+	case x < 8: // a ladder of small counter orders across a resting order's price
+		w.genLadder(g)
 	case x < 50: // limit order
 		app, p, ok := w.pickPair(g)
 		if !ok {
@@ -855,6 +1017,16 @@ func (w *liqWorld) genOp(g *rng, c04 bool) {
 		}
 		if g.chance(3) {
 			od, dd = dd, od
+		}
+		if g.chance(4) { // the coins of ANOTHER app's pair with the same id
+			if other := w.apps[g.intn(len(w.apps))]; other != app {
+				if q, ok := w.k.GetPair(w.ctx, other, p.Id); ok {
+					od, dd = q.QuoteCoinDenom, q.BaseCoinDenom
+					if dir == 2 {
+						od, dd = dd, od
+					}
+				}
+			}
 		}
 		if owner >= 1000 {
 			w.watchUser(owner, p.QuoteCoinDenom, p.BaseCoinDenom)
@@ -1000,7 +1172,22 @@ func (w *liqWorld) genPoolOp(g *rng) {
 	if g.chance(3) {
 		pid = 77
 	}
-	pcBal := bal(w.a, w.ctx, addrN(owner), pl.PoolCoinDenom)
+	// the coins the message carries: the pool's own, or (cross-app attempt) those of ANOTHER app's pool with the
+	// same pool id - such a message must fail and nothing of the target pool may change
+	coinApp := app
+	if g.chance(18) {
+		for _, other := range []uint64{w.apps[g.intn(len(w.apps))], w.apps[g.intn(len(w.apps))]} {
+			if _, ok := w.k.GetPool(w.ctx, other, pl.Id); ok && other != app {
+				coinApp = other
+				if g.chance(50) {
+					owner = 90 // the creator holds the initial pool coins of every pool
+				}
+				break
+			}
+		}
+	}
+	pcDenom := liqtypes.PoolCoinDenom(coinApp, pl.Id)
+	pcBal := bal(w.a, w.ctx, addrN(owner), pcDenom)
 	frac := func(b sdk.Int) sdk.Int {
 		switch g.intn(6) {
 		case 0:
@@ -1016,7 +1203,35 @@ func (w *liqWorld) genPoolOp(g *rng) {
 			return b.MulRaw(int64(1 + g.intn(99))).QuoRaw(100)
 		}
 	}
+	farmedOf := func(a uint64) sdk.Int {
+		farmed := sdk.ZeroInt()
+		if q, ok := w.k.GetQueuedFarmer(w.ctx, a, pl.Id, addrN(owner)); ok {
+			for _, c := range q.QueudCoins {
+				farmed = farmed.Add(c.FarmedPoolCoin.Amount)
+			}
+		}
+		if f, ok := w.k.GetActiveFarmer(w.ctx, a, pl.Id, addrN(owner)); ok {
+			farmed = farmed.Add(f.FarmedPoolCoin.Amount)
+		}
+		return farmed
+	}
+	farmed := farmedOf(app)
+	if coinApp != app && g.chance(50) {
+		farmed = farmedOf(coinApp)
+	}
 	ref := w.refP[fmt.Sprintf("%d:%d", app, pl.PairId)]
+	depCoins := func(x, y sdk.Int) sdk.Coins {
+		if coinApp != app {
+			if opl, ok := w.k.GetPool(w.ctx, coinApp, pl.Id); ok {
+				opr, _ := w.k.GetPair(w.ctx, coinApp, opl.PairId)
+				return sdk.NewCoins(sdk.NewCoin(opr.QuoteCoinDenom, x), sdk.NewCoin(opr.BaseCoinDenom, y))
+			}
+		}
+		if g.chance(3) { // one coin only / a coin outside the pair
+			return sdk.NewCoins(sdk.NewCoin([]string{"uaaa", "ubbb", "uccc", "ucmdx"}[g.intn(4)], x.AddRaw(1)))
+		}
+		return w.ownCoins(app, pid, x, y)
+	}
 	switch x := g.intn(100); {
 	case x < 25:
 		y := sdk.NewInt(int64(g.pickI(0, 1, 1000, 100000, 5000000)))
@@ -1024,36 +1239,18 @@ func (w *liqWorld) genPoolOp(g *rng) {
 		if g.chance(30) {
 			xq = xq.AddRaw(int64(g.intn(100000)))
 		}
-		w.opDeposit(app, owner, pid, xq, y)
+		w.opDeposit(app, owner, pid, depCoins(xq, y))
 	case x < 40:
-		w.opWithdraw(app, owner, pid, frac(pcBal))
+		w.opWithdraw(app, owner, pid, sdk.Coin{Denom: pcDenom, Amount: frac(pcBal)})
 	case x < 58:
-		w.opFarm(app, owner, pid, frac(pcBal))
+		w.opFarm(app, owner, pid, sdk.Coin{Denom: pcDenom, Amount: frac(pcBal)})
 	case x < 76:
-		farmed := sdk.ZeroInt()
-		if q, ok := w.k.GetQueuedFarmer(w.ctx, app, pl.Id, addrN(owner)); ok {
-			for _, c := range q.QueudCoins {
-				farmed = farmed.Add(c.FarmedPoolCoin.Amount)
-			}
-		}
-		if f, ok := w.k.GetActiveFarmer(w.ctx, app, pl.Id, addrN(owner)); ok {
-			farmed = farmed.Add(f.FarmedPoolCoin.Amount)
-		}
-		w.opUnfarm(app, owner, pid, frac(farmed))
+		w.opUnfarm(app, owner, pid, sdk.Coin{Denom: pcDenom, Amount: frac(farmed)})
 	case x < 88:
 		y := sdk.NewInt(int64(g.pickI(1, 1000, 100000, 5000000)))
-		w.opDepositAndFarm(app, owner, pid, ref.MulInt(y).TruncateInt().AddRaw(int64(g.intn(1000))), y)
+		w.opDepositAndFarm(app, owner, pid, depCoins(ref.MulInt(y).TruncateInt().AddRaw(int64(g.intn(1000))), y))
 	default:
-		farmed := sdk.ZeroInt()
-		if q, ok := w.k.GetQueuedFarmer(w.ctx, app, pl.Id, addrN(owner)); ok {
-			for _, c := range q.QueudCoins {
-				farmed = farmed.Add(c.FarmedPoolCoin.Amount)
-			}
-		}
-		if f, ok := w.k.GetActiveFarmer(w.ctx, app, pl.Id, addrN(owner)); ok {
-			farmed = farmed.Add(f.FarmedPoolCoin.Amount)
-		}
-		w.opUnfarmAndWithdraw(app, owner, pid, frac(farmed))
+		w.opUnfarmAndWithdraw(app, owner, pid, sdk.Coin{Denom: pcDenom, Amount: frac(farmed)})
 	}
 }
 
